@@ -11,7 +11,10 @@
 // responses must produce a block).  All reads go through the store object the Manager runs on (what an RPC
 // client, the DA submitter or the sync services of the node see), after every item and — for a quarter of
 // the steps — also from inside ExecuteTxs (between the early and the final save of a block), and are
-// cross-checked against a freshly opened store.  Writes cases_C01.v for Check/ProducerCheck.v and result.json.
+// cross-checked against a freshly opened store.  In a third of the cases the steps are made by the node's OWN production
+// loop: the real Manager.AggregationLoop (normal / lazy) runs under virtual time and each of its rounds consumes the next
+// step item (harness/producer/loop.go); the oracle then also requires that a round answered by a sequencer fault of any
+// error class leaves the loop running.  Writes cases_C01.v for Check/ProducerLoopCheck.v and result.json.
 package c01
 
 import (
@@ -23,6 +26,9 @@ import (
 
 func gen(r *rand.Rand, tier string, c int, _ int64) (producer.Cfg, []producer.Item) {
 	cfg := producer.Cfg{Initial: []uint64{1, 1, 2, 5, 1000}[r.Intn(5)], GOff: int64(r.Intn(3)) * 2500, Lazy: r.Intn(2) == 0}
+	// in a third of the cases the steps are made by the node's own production loop (the real AggregationLoop, normal or
+	// lazy, under virtual time): a round that hands an error back to the loop halts the node until it is restarted
+	cfg.Loop = r.Intn(100) < 35
 	maxLen := 40
 	if tier == "thorough" {
 		maxLen = 120
@@ -69,8 +75,15 @@ func gen(r *rand.Rand, tier string, c int, _ int64) (producer.Cfg, []producer.It
 		case x < 87:
 			it.Seq = "nil"
 		default:
+			// a transient fault of the sequencing layer, of any error class (plain, a request-level deadline or
+			// cancellation - bare, wrapped, joined -, a wrapped "no batch", I/O errors)
 			it.Seq = "err"
+			it.ErrKind = 1 + r.Intn(producer.NSeqErrKinds)
 		}
+		if cfg.Loop {
+			it.Notify = r.Intn(100) < 40 // new transactions are announced before the round (lazy mode: the block timer then produces)
+		}
+		regressed := false
 		if it.Seq != "err" {
 			d := int64(0)
 			switch y := r.Intn(100); {
@@ -82,6 +95,7 @@ func gen(r *rand.Rand, tier string, c int, _ int64) (producer.Cfg, []producer.It
 				d = int64(1 + r.Intn(5000))
 			}
 			it.Ts = cur + d
+			regressed = d < 0 && it.Seq == "batch" && len(it.Txs) > 0
 			if it.Seq == "batch" {
 				cur = it.Ts
 			}
@@ -99,6 +113,9 @@ func gen(r *rand.Rand, tier string, c int, _ int64) (producer.Cfg, []producer.It
 		if it.ExecErr {
 			p = 45
 		}
+		if cfg.Loop && (it.ExecErr || regressed) {
+			p = 80 // the production loop has probably halted the node: it is usually restarted (by its supervisor)
+		}
 		for k := 0; k < 2 && r.Intn(100) < p; k++ {
 			b := producer.Item{T: "boot", InitErr: r.Intn(100) < 8}
 			execOutcome(&b)
@@ -115,8 +132,8 @@ func gen(r *rand.Rand, tier string, c int, _ int64) (producer.Cfg, []producer.It
 }
 
 func TestVerif(t *testing.T) {
-	rule := "boot (5%: a first boot whose InitChain fails) then 1..40 (quick) / 1..120, every 10th case 1..300 (thorough) production steps; sequencer response 50% non-empty batch (1-5 txs of 1-64 bytes, 5% zero-length, 2.5% one 100 kB tx), 25% empty batch, 12% absent batch, 13% transient error; timestamp delta 15% regress / 10% equal / 75% advance by 1..5000 ms; 7% execution errors; after a step the node is restarted on the same database (boot item: NewManager + getInitialState, the running process is discarded; no crash inside a step) with probability 5%, 45% after a step whose execution was scripted to fail (the early-saved pending block then lies above the recorded state), a second restart follows with 30%, 8% of the restarts have a failing InitChain (consulted only when no state is stored); every successful InitChain / ExecuteTxs hands back a state root of length 0 (nil or empty) with probability 12% and a maxBytes value of 1<<20 (60%) or one of {0, 1, 10, 100, 100, 1000} (40%) - the sequencer double ignores the MaxBytes of the request, so later batches (1-5 txs of 1-64 bytes, the 100 kB tx) are routinely larger than the last reported value; in 25% of the steps a client of the node reads the height being produced and the one below through the node's store while the execution layer works (between the early and the final save); after EVERY item the blocks the node's store serves (same store object as the Manager's) at the tip, the pending height, the heights written and two older heights are checked and compared with a freshly opened store; initial height from {1,1,2,5,1000}; lazy/normal mode flag random; non-trivial = at least 3 steps and one committed block; distinct = distinct (configuration, history)"
-	producer.Main(t, "C01", gen, rule, func(cfg producer.Cfg, h []producer.Item, obs []producer.Obs) bool {
+	rule := "boot (5%: a first boot whose InitChain fails) then 1..40 (quick) / 1..120, every 10th case 1..300 (thorough) production steps; sequencer response 50% non-empty batch (1-5 txs of 1-64 bytes, 5% zero-length, 2.5% one 100 kB tx), 25% empty batch, 12% absent batch, 13% transient error of one of eight classes (plain; context.DeadlineExceeded bare / wrapped; context.Canceled wrapped / joined with another error; a wrapped ErrNoBatch; os.ErrDeadlineExceeded; io.ErrUnexpectedEOF) returned while the node's context is live; timestamp delta 15% regress / 10% equal / 75% advance by 1..5000 ms; 7% execution errors; after a step the node is restarted on the same database (boot item: NewManager + getInitialState, the running process is discarded; no crash inside a step) with probability 5%, 45% after a step whose execution was scripted to fail (the early-saved pending block then lies above the recorded state), a second restart follows with 30%, 8% of the restarts have a failing InitChain (consulted only when no state is stored); every successful InitChain / ExecuteTxs hands back a state root of length 0 (nil or empty) with probability 12% and a maxBytes value of 1<<20 (60%) or one of {0, 1, 10, 100, 100, 1000} (40%) - the sequencer double ignores the MaxBytes of the request, so later batches (1-5 txs of 1-64 bytes, the 100 kB tx) are routinely larger than the last reported value; in 25% of the steps a client of the node reads the height being produced and the one below through the node's store while the execution layer works (between the early and the final save); after EVERY item the blocks the node's store serves (same store object as the Manager's) at the tip, the pending height, the heights written and two older heights are checked and compared with a freshly opened store; initial height from {1,1,2,5,1000}; lazy/normal mode flag random; in 35% of the cases (and in two fixed corpus cases, normal and lazy, that go through all eight error classes) the steps are NOT driven by direct calls of publishBlockInternal but made by the node's own production loop: the real Manager.AggregationLoop (normal or lazy by the flag; start-up delay, block timer, lazy timer, NotifyNewTransactions before 40% of the rounds) is started after every successful NewManager under testing/synctest virtual time with the node's one-slot error channel, each of its calls of m.publishBlock runs the real publishBlockInternal on the next step item with the loop's own context; a round that hands an error back ends the loop (the node halts: the items up to the next boot find no process; in these cases a restart follows a round that probably failed with 80%), and per item 'the loop is still running' is observed next to everything else; non-trivial = at least 3 steps and one committed block; distinct = distinct (configuration, history)"
+	producer.MainOpts(t, "C01", gen, rule, func(cfg producer.Cfg, h []producer.Item, obs []producer.Obs) bool {
 		steps, commits := 0, 0
 		for i, it := range h {
 			if it.T == "step" {
@@ -127,5 +144,5 @@ func TestVerif(t *testing.T) {
 			}
 		}
 		return steps >= 3 && commits >= 1
-	})
+	}, producer.Opts{Unified: true})
 }
